@@ -334,7 +334,8 @@ GEN_FAMILIES = {
     # family: (cfg, quick sample size, thorough sample size)   (None = all)
     "G1a_1": ("MC_Gen_G1a_1.cfg", 1200, None),
     "G1a_2": ("MC_Gen_G1a_2.cfg", 500, None),
-    "G1b": ("MC_Gen_G1b.cfg", 1200, None),
+    "G1b_s": ("MC_Gen_G1b_s.cfg", 600, None),
+    "G1b_e": ("MC_Gen_G1b_e.cfg", 600, None),
     "G1c": ("MC_Gen_G1c.cfg", None, None),
     "G2p_2": ("MC_Gen_G2p_2.cfg", 900, None),
     "G2p_3s": ("MC_Gen_G2p_3s.cfg", 400, 0),
@@ -370,7 +371,7 @@ def gen_pipeline(tier, seed):
     for i in range(0, len(fams), step):
         batch = fams[i:i + step]
         ps = [(f, tlc_start(os.path.join(SPEC, "mc", "MC_Gen.tla"), os.path.join(SPEC, "mc", GEN_FAMILIES[f][0]),
-                            os.path.join(wd, f"mc_{f}.out"), os.path.join(wd, f"md_{f}"), workers=3 if tier == "quick" else 4, xmx="6g")) for f in batch]
+                            os.path.join(wd, f"mc_{f}.out"), os.path.join(wd, f"md_{f}"), workers=(5 if f.startswith("G1b") else 2) if tier == "quick" else 4, xmx="6g")) for f in batch]
         tlc_wait([p for _, p in ps], 900 if tier == "quick" else 3000)
     log(f"[gen] MC done after {time.time() - t0:.0f}s")
     acts = {}
